@@ -238,10 +238,12 @@ func (c *checkCtx) runContracts(cov map[string]interface{}) int {
 	}
 	timeout := 10
 	all := false
+	// every postcondition `A ==> B` also asks that A be reachable at some return of the function (both tiers): a
+	// change after which A cannot happen any more makes the clause hold vacuously, and that is reported
+	ld.eng.reachAntecedents = true
 	if c.tier == "thorough" {
 		timeout = 60
 		all = true
-		ld.eng.reachAntecedents = true
 	}
 	var obls []*Obligation
 	var funcs []map[string]interface{}
@@ -410,6 +412,17 @@ func (c *checkCtx) runContracts(cov map[string]interface{}) int {
 			// An unreachable antecedent is listed in the evidence; it is not a violation of the property.
 			reachChecked++
 			solverTime += ns.Time
+			if len(ns.Failed) > 0 && len(ns.Unknown) == 0 {
+				// refuted on every path: no execution of the function reaches a return with A
+				if matchKnown(c.known, c.id, ns.Name, "") == nil {
+					nOb++
+					byKind[ns.Kind]++
+					failedNames = append(failedNames, ns.Name)
+					vacuous++
+					c.reportFailure(ns)
+					continue
+				}
+			}
 			if len(ns.Failed) > 0 || (ns.Discharged == 0 && len(ns.Unknown) > 0) {
 				unreachable = append(unreachable, strings.Replace(ns.Name, "#reach:", "#post:", 1))
 			}
